@@ -85,7 +85,7 @@ def _outcome(fn):
         return ("raise", type(e).__name__, compare.msg(e, 160))
 
 
-def _execute(ds, lay, st, op, sort, ctx):
+def _execute(ds, lay, st, op, sort, ctx, tracer=None):
     from groupby_lib.groupby.core import GroupBy
 
     gen.apply_strategy(st)
@@ -101,7 +101,11 @@ def _execute(ds, lay, st, op, sort, ctx):
         return ops.call_op(gb, op, values, mask, ds, raw_keys=keys)
 
     with executor.use_context(ctx):
-        out = _outcome(go)
+        if tracer is None:
+            out = _outcome(go)
+        else:
+            with tracer:
+                out = _outcome(go)
     return out, info
 
 
@@ -152,7 +156,7 @@ def gen_scenario(scen: Choices, cls, cfg):
         scen.end(b_)
     if not op_list:
         op_list = [ops.gen_op(Choices(replay=[]), family, ds)]
-    fault = gen.gen_fault(scen) if cfg.get("fault_mode") else None
+    fault = gen.gen_fault(scen, stmt=True) if cfg.get("fault_mode") else None
     return {"ds": ds, "sort": sort, "lay": lay, "st": st, "ops": op_list, "fault": fault}
 
 
@@ -239,8 +243,19 @@ def execute(sc, sched: Choices, cls, cfg):
             ctxs = [ctxa, ctxb]
             results_digest.append((base, ra, rb))
         else:
-            ctxf = executor.SimContext(sched=sched, workers=st["workers"], cpu_count=st["cpu"], fault=fault, monitor=True)
+            this_fault = fault
+            if fault["kind"] in gen.STMT_KINDS:
+                # traced dry run under the same strategy scales the position of the statement fault
+                dry = executor.LineTracer(None, mode=fault.get("mode", 0))
+                ctxd = executor.SimContext(sched=sched, workers=st["workers"], cpu_count=st["cpu"])
+                _execute(ds, lay, st, op, sort, ctxd, tracer=dry)
+                this_fault = gen.arm_stmt_fault(fault, dry.count)
+                probes.add("stmt_fault_armed")
+            ctxf = executor.SimContext(sched=sched, workers=st["workers"], cpu_count=st["cpu"], fault=this_fault, monitor=True)
             rf, info = _execute(ds, lay, st, op, sort, ctxf)
+            if ctxf.fault_where:
+                rec.setdefault("fault_sites", []).append(ctxf.fault_where)
+                features["fault_where"] = ctxf.fault_where
             features["key_repr"] = info.get("repr", "?")
             features["fault"] = ctxf.fault_fired or "none"
             judge("fault_relaxed", rf, base, fired=ctxf.fault_fired)
